@@ -60,6 +60,7 @@ type PathResult struct {
 	Instr    int
 	Decis    int
 	Panic    *targetPanic
+	Concurrent bool // more than one goroutine existed: outcomes other than OK depend on the schedule
 }
 
 type Exec struct {
@@ -91,6 +92,7 @@ type Exec struct {
 	frozenHits  []frozenHit
 	sharedFrom  int
 	encodesUnlocked int
+	nGoroutines int
 	deadlocked  bool
 	leakCheck   bool
 	held        []*Cell // mutex cells currently held (sequential lockset)
@@ -431,7 +433,20 @@ func sanitize(s string) string {
 }
 
 // model returns the current model of all inputs as name -> printable value, or ok=false.
-func (ex *Exec) model(extra []*Term) (map[string]string, []uint64, bool) {
+func (ex *Exec) model(extra []*Term) (mm map[string]string, vv []uint64, okk bool) {
+	defer func() {
+		if r := recover(); r != nil {
+			if _, isD := r.(solverDied); isD {
+				mm, vv, okk = nil, nil, false
+				return
+			}
+			panic(r)
+		}
+	}()
+	return ex.model1(extra)
+}
+
+func (ex *Exec) model1(extra []*Term) (map[string]string, []uint64, bool) {
 	ts := make([]*Term, 0, len(ex.inputs)+len(extra))
 	for _, in := range ex.inputs {
 		ts = append(ts, in.T)
@@ -558,6 +573,7 @@ func (ex *Exec) runPath(fn *ssa.Function, prefix []int) (res *PathResult, pendin
 		res.Detail = "solver died"
 		return res, nil
 	}
+	res.Concurrent = ex.nGoroutines > 1
 	res.Prefix = append([]int{}, ex.taken...)
 	res.Orders = ex.ordersUsed
 	res.Instr = ex.pathInstr
